@@ -85,6 +85,8 @@ func (it *Iterator) Refresh() {
 		it.iter.Close()
 		it.iter = it.snap.db.store.NewIterator(it.snap.db.iterCmp, it.buf)
 		it.iter.Seek(unsafe.Pointer(itm))
+		// The key-only seek lands on the oldest physical version of the key
+		it.skipUnwanted()
 	}
 }
 
